@@ -14,6 +14,7 @@ package main
 
 import (
 	"bytes"
+	"encoding/base64"
 	"encoding/hex"
 	"encoding/json"
 	"sort"
@@ -875,6 +876,228 @@ func anyConfigs() (cs []uint64, names []string) {
 		}
 	}
 	return
+}
+
+// ---------------------------------------------------------------- bulk ill-formed UTF-8, escaped base64
+
+func base64Std(b []byte) string { return base64.StdEncoding.EncodeToString(b) }
+
+// badPieces: ill-formed UTF-8 (every byte of a piece is replaced on its own by encoding/json)
+var badPieces = []string{"\xff", "\x80", "\xfe", "\xc0\x80", "\xe2\x82", "\xed\xa0\x80", "\xf0\x9f"}
+
+func badCount(s string) int { return len(s) } // every byte of these pieces is ill-formed
+
+// bulkCounts: numbers of ill-formed bytes around the multiples of 4096 (the capacity of the table of
+// invalid positions one native validate call can fill)
+var bulkCounts = []int{4095, 4096, 4097, 4097, 4098, 4100, 8191, 8192, 8193, 8194, 12289, 5000}
+
+func init() {
+	// ConfigStd (ValidateString): more than 4096 ill-formed bytes in one document, with valid bytes right
+	// behind the 4096k-th one; in one long string, spread over thousands of strings, or over keys
+	registerGen("bind.utf8bulk", func(g *Gen) {
+		std, _, _ := bindConfigs()
+		cfgs := []uint64{std, std, std | cfgBit("UseNumber"), cfgBit("ValidateString"), cfgBit("ValidateString") | cfgBit("CopyString")}
+		for i := 0; i < g.N; i++ {
+			cfg := cfgs[g.R.Intn(len(cfgs))]
+			want := bulkCounts[g.R.Intn(len(bulkCounts))]
+			if g.R.Intn(4) == 0 {
+				want += g.R.Intn(7) - 3
+			}
+			shape := g.R.Intn(6)
+			if shape >= 3 && want > 4200 {
+				want = 4096 + g.R.Intn(4) // the wordier shapes stay just above one table
+			}
+			gap := func() string {
+				return []string{"a", "", "", "b", "é", " "}[g.R.Intn(6)]
+			}
+			var doc bytes.Buffer
+			var dest string
+			n := 0
+			switch shape {
+			case 0: // one long string
+				dest = []string{"str", "any", "(st (f A - str))", "(ptr str)", "raw"}[g.R.Intn(5)]
+				if strings.HasPrefix(dest, "(st") {
+					doc.WriteString(`{"A":`)
+				}
+				doc.WriteByte('"')
+				for n < want {
+					p := badPieces[g.R.Intn(len(badPieces))]
+					if g.R.Intn(3) != 0 {
+						p = badPieces[0]
+					}
+					doc.WriteString(gap())
+					doc.WriteString(p)
+					n += badCount(p)
+				}
+				doc.WriteString(gap())
+				doc.WriteByte('"')
+				if strings.HasPrefix(dest, "(st") {
+					doc.WriteByte('}')
+				}
+			case 1, 2: // thousands of short strings
+				dest = []string{"(sl str)", "any", "(sl any)", "(st (f A - (sl str)) (f B - str))", "(sl (ptr str))"}[g.R.Intn(5)]
+				if strings.HasPrefix(dest, "(st") {
+					doc.WriteString(`{"B":"x","A":`)
+				}
+				doc.WriteByte('[')
+				for j := 0; n < want; j++ {
+					if j > 0 {
+						doc.WriteByte(',')
+					}
+					p := badPieces[0]
+					if shape == 2 {
+						p = badPieces[g.R.Intn(len(badPieces))]
+					}
+					doc.WriteString(`"` + gap() + p + gap() + `"`)
+					n += badCount(p)
+				}
+				doc.WriteByte(']')
+				if strings.HasPrefix(dest, "(st") {
+					doc.WriteByte('}')
+				}
+			case 3: // keys
+				dest = []string{"(map str int)", "any", "(map str any)", "(map str str)"}[g.R.Intn(4)]
+				doc.WriteByte('{')
+				for j := 0; n < want; j++ {
+					if j > 0 {
+						doc.WriteByte(',')
+					}
+					doc.WriteString(`"k` + strconv.Itoa(j) + badPieces[0] + `":`)
+					n++
+					if dest == "(map str str)" {
+						doc.WriteString(`"v` + badPieces[0] + `"`)
+						n++
+					} else {
+						doc.WriteString(strconv.Itoa(j % 100))
+					}
+				}
+				doc.WriteByte('}')
+			case 4: // valid strings, then a tail of ill-formed ones: the table fills in the middle of the document
+				dest = []string{"(sl str)", "any"}[g.R.Intn(2)]
+				doc.WriteByte('[')
+				for j := 0; j < 50; j++ {
+					doc.WriteString(`"ok é",`)
+				}
+				for j := 0; n < want; j++ {
+					if j > 0 {
+						doc.WriteByte(',')
+					}
+					doc.WriteString(`"` + badPieces[0] + `x"`)
+					n++
+				}
+				doc.WriteByte(']')
+			default: // nested: array of small objects
+				dest = []string{"(sl (st (f A - str) (f N - int)))", "any", "(sl (map str str))"}[g.R.Intn(3)]
+				doc.WriteByte('[')
+				for j := 0; n < want; j++ {
+					if j > 0 {
+						doc.WriteByte(',')
+					}
+					doc.WriteString(`{"A":"` + gap() + badPieces[0] + `"`)
+					n++
+					if dest != "(sl (map str str))" {
+						doc.WriteString(`,"N":` + strconv.Itoa(j))
+					}
+					doc.WriteByte('}')
+				}
+				doc.WriteByte(']')
+			}
+			tags := []string{"cfg:validate", "utf8bulk", "shape:" + strconv.Itoa(shape), "bad:" + strconv.Itoa(n)}
+			g.Emit("bind", strconv.FormatUint(cfg, 10), dest, hexArg(doc.Bytes()), tagStr(tags))
+		}
+	})
+
+	// []byte destinations whose base64 text is spelled with JSON escapes, with right and wrong padding
+	registerGen("bind.b64esc", func(g *Gen) {
+		dests := []string{"bytes", "bytes", "(sl bytes)", "(map str bytes)", "(ptr bytes)", "(st (f A - bytes) (f B - (sl u8)) (f C - int))", "(arr 2 bytes)", "(sl u8)", "any"}
+		for i := 0; i < g.N; i++ {
+			cfg, cname := pickConfig(g)
+			tags := []string{"cfg:" + cname, "b64esc"}
+			lit := func() string {
+				raw := make([]byte, g.R.Intn(12))
+				if g.R.Intn(8) == 0 {
+					raw = make([]byte, 30+g.R.Intn(70))
+				}
+				g.R.Read(raw)
+				if g.R.Intn(3) == 0 { // force '/' and '+' characters
+					for k := range raw {
+						raw[k] |= 0xfb
+					}
+				}
+				t := base64Std(raw)
+				switch g.R.Intn(10) { // padding damage
+				case 0:
+					t = strings.TrimRight(t, "=")
+					tags = append(tags, "b64_nopad")
+				case 1:
+					t += "="
+					tags = append(tags, "b64_extrapad")
+				case 2:
+					if len(t) > 2 {
+						k := g.R.Intn(len(t))
+						t = t[:k] + "=" + t[k:]
+						tags = append(tags, "b64_midpad")
+					}
+				case 3:
+					if len(t) > 1 {
+						t = t[:len(t)-1]
+						tags = append(tags, "b64_cut")
+					}
+				}
+				var b strings.Builder
+				b.WriteByte('"')
+				esc := g.R.Intn(4) // 0: none, 1: only \/ and \u003d, 2: any character sometimes, 3: plus line breaks
+				if esc > 0 {
+					tags = append(tags, "b64_escaped")
+				}
+				for k := 0; k < len(t); k++ {
+					c := t[k]
+					switch {
+					case esc >= 1 && c == '/' && g.R.Intn(4) != 0:
+						b.WriteString(`\/`)
+					case esc >= 1 && c == '=' && g.R.Intn(2) == 0:
+						b.WriteString(`\u003d`)
+					case esc >= 1 && c == '+' && g.R.Intn(2) == 0:
+						b.WriteString(`\u002b`)
+					case esc >= 2 && g.R.Intn(6) == 0:
+						b.WriteString(`\u00` + hex.EncodeToString([]byte{c}))
+					default:
+						b.WriteByte(c)
+					}
+					if esc == 3 && g.R.Intn(10) == 0 {
+						b.WriteString([]string{`\n`, `\r\n`, `\r`}[g.R.Intn(3)])
+						tags = append(tags, "b64_linebreak")
+					}
+				}
+				b.WriteByte('"')
+				return b.String()
+			}
+			dest := dests[g.R.Intn(len(dests))]
+			var doc string
+			switch {
+			case dest == "(sl bytes)":
+				parts := []string{}
+				for k := g.R.Intn(5); k >= 0; k-- {
+					parts = append(parts, lit())
+				}
+				doc = "[" + strings.Join(parts, ",") + "]"
+			case dest == "(arr 2 bytes)":
+				doc = "[" + lit() + "," + lit() + "]"
+			case dest == "(map str bytes)":
+				doc = `{"a":` + lit() + `,"b\/":` + lit() + `}`
+			case strings.HasPrefix(dest, "(st"):
+				doc = `{"A":` + lit() + `,"C":5,"B":` + lit() + `}`
+			case dest == "any":
+				doc = `[` + lit() + `]`
+			default:
+				doc = lit()
+			}
+			if g.R.Intn(3) == 0 {
+				doc = strings.Repeat(" ", []int{1, 15, 31, 63}[g.R.Intn(4)]) + doc
+			}
+			g.Emit("bind", strconv.FormatUint(cfg, 10), dest, hexArg([]byte(doc)), tagStr(tags))
+		}
+	})
 }
 
 func init() {
